@@ -109,3 +109,22 @@ func (s *verifStream) Close() error {
 
 func (s *verifStream) push(b []byte) { s.ch <- b }
 func (s *verifStream) end()          { close(s.ch) }
+
+// verifBridge connects a client to an in-process server: every HTTP request the client builds is
+// served by the server's ServeHTTP with a recording writer, and the recording becomes the response.
+type verifBridge struct {
+	handler  http.Handler
+	requests int
+}
+
+func (b *verifBridge) Handle(ctx context.Context, client *http.Client, req *http.Request) (*http.Response, error) {
+	b.requests++
+	var body []byte
+	if req.Body != nil {
+		body, _ = io.ReadAll(req.Body)
+	}
+	rec := newVerifRecorder()
+	sreq := &http.Request{Method: req.Method, URL: req.URL, Header: req.Header, Body: &verifBody{data: body}}
+	b.handler.ServeHTTP(rec, sreq.WithContext(ctx))
+	return &http.Response{StatusCode: rec.code(), Status: "status", Header: rec.header, Body: &verifBody{data: rec.body}}, nil
+}
